@@ -10,6 +10,7 @@ import (
 	"testing/synctest"
 	"time"
 
+	"github.com/0xReLogic/Helios/internal/config"
 	"github.com/0xReLogic/Helios/internal/loadbalancer"
 	"github.com/0xReLogic/Helios/verifharness/lab"
 	"pgregory.net/rapid"
@@ -59,6 +60,11 @@ type l1Case struct {
 	Concurrent bool     `json:"concurrent"`
 	GapMs      []int    `json:"gap_ms,omitempty"` // sequential: virtual pause before call i+1
 	Clients    int      `json:"clients"`
+	// Breaker: circuit_breaker enabled with the values of the shipped sample file (closed throughout:
+	// transparent for the parked client requests). Rate limiting cannot be hosted here: the limiter's
+	// never-ending janitor must live outside the bubble, the probe checker inside it (stop-pool-history,
+	// stop-feature-matrix and stop-race-stress carry that dimension).
+	Breaker bool `json:"circuit_breaker,omitempty"`
 }
 
 type stopRec struct {
@@ -138,6 +144,7 @@ func genL1(rt *rapid.T) l1Case {
 		}
 	}
 	c.Clients = rapid.SampledFrom([]int{0, 0, 1, 2}).Draw(rt, "clients")
+	c.Breaker = rapid.Bool().Draw(rt, "circuit_breaker")
 	return c
 }
 
@@ -199,6 +206,9 @@ func (c l1Case) inBubble(fn *lab.FakeNet, r *l1Result) {
 		cfg.LoadBalancer.WebSocketPool.MaxIdle = c.MaxIdle
 		cfg.LoadBalancer.WebSocketPool.MaxActive = 100
 		cfg.LoadBalancer.WebSocketPool.IdleTimeoutSeconds = 3600
+	}
+	if c.Breaker {
+		cfg.CircuitBreaker = config.CircuitBreakerConfig{Enabled: true, MaxRequests: 5, IntervalSeconds: 60, TimeoutSeconds: 60, FailureThreshold: 5, SuccessThreshold: 2}
 	}
 	if err := cfg.Validate(); err != nil {
 		r.Harness = "config rejected: " + err.Error()
@@ -434,7 +444,7 @@ func (c l1Case) inBubble(fn *lab.FakeNet, r *l1Result) {
 
 func TestC19StopSchedules(t *testing.T) {
 	const name = "stop-vs-probe-schedule"
-	sub := lab.Sub(name, "rapid schedules in virtual time against the real balancer with Helios's own probe ticker: 5 strategies x 1-4 backends x interval 2-10 s x timeout 1..interval-1 x passive window {off,1,3,15 s} x per-backend probe script {200, 5xx, unreachable, held until cancelled, held until released after a drawn delay} "+
+	sub := lab.Sub(name, "rapid schedules in virtual time against the real balancer with Helios's own probe ticker: 5 strategies x 1-4 backends x interval 2-10 s x timeout 1..interval-1 x passive window {off,1,3,15 s} x circuit breaker {off, on with the sample file's values} x per-backend probe script {200, 5xx, unreachable, held until cancelled, held until released after a drawn delay} "+
 		"x optional websocket pool (max_idle 1-4) with 1-6 fake connections Put before the stop x stop instant {right after construction without letting the probe goroutine run, after the first probe round was launched, tick k=1..3 with offset -1 ms/-1 ns/0/+1 ns/+1 ms, while probes are held (offset in (0,timeout) incl. the edges), between ticks} "+
 		"x 1-3 Stop calls concurrent or sequential (gaps 0..interval+1 ms) x 0-2 client requests parked inside backends across the stop; oracle: every Stop returns within one probe timeout (+1 ms) of virtual time and does not panic, the count of started probe round-trips sampled right after the first return is unchanged ten intervals later and no logged probe starts after it, "+
 		"every connection the pool accepted is closed at the first return, parked client requests complete with the backend's answer when released afterwards; non-trivial = at least one probe in flight when Stop is called, or the stop instant within 1 ms of a probe tick (t0 counts as tick 0)")
@@ -477,6 +487,12 @@ func TestC19StopSchedules(t *testing.T) {
 		}
 		if c.Pool {
 			labels = append(labels, "pool")
+		}
+		if c.Breaker {
+			labels = append(labels, "on=circuit_breaker")
+		}
+		if c.WindowS > 0 {
+			labels = append(labels, "on=passive_checks")
 		}
 		if c.Stops > 1 {
 			labels = append(labels, "stops>1")
